@@ -585,19 +585,6 @@ impl<D: StorageData> Storage<D> {
                 ));
             }
 
-            // every record takes at least its header in the file so the
-            // index of a record can never exceed the number of headers that fit
-            if record.index > end / STORAGE_RECORD_SIZE {
-                return Err(DbError::storage(
-                    DbErrorType::OutOfBounds,
-                    format!(
-                        "Invalid record index ({}) exceeds possible number of records ({})",
-                        record.index,
-                        end / STORAGE_RECORD_SIZE
-                    ),
-                ));
-            }
-
             self.records.set_record(record);
             current_pos = record.end();
         }
